@@ -50,12 +50,14 @@ def connected_dags(max_n, min_n=1):
     return out
 
 
-def histories(max_n, nstates, min_n=1, nstates_for=None):
-    """All (dag, assignment) with assignment a tuple of state indexes.  nstates_for: {n: nstates} overrides."""
+def histories(max_n, nstates, min_n=1, nstates_for=None, state_ids=None):
+    """All (dag, assignment) with assignment a tuple of state indexes.  nstates_for: {n: nstates} overrides;
+    state_ids: explicit tuple of state indexes to draw from (instead of range(nstates))."""
     out = []
     for d in connected_dags(max_n, min_n):
         k = (nstates_for or {}).get(len(d), nstates)
-        for a in itertools.product(range(k), repeat=len(d)):
+        pool = tuple(state_ids) if state_ids is not None else tuple(range(k))
+        for a in itertools.product(pool, repeat=len(d)):
             out.append((d, a))
     return out
 
